@@ -86,7 +86,7 @@ GoodNested == [t |-> "o", f |-> <<[k |-> "a", v |-> [t |-> "n", v |-> "1"]], [k 
 ValueOk(mode, e, r) ==      \* the value handed to the data parameter is what the documented decoding yields
     CASE ObservedExtract(mode, e) # "value" -> TRUE
       [] mode \in {"raw", "rawopt"} -> e.data = [t |-> "s", v |-> r.data]
-      [] mode \in {"plain", "opt"} /\ r.class = "good" -> e.data = GoodNested
+      [] mode \in {"plain", "opt", "plainO"} /\ r.class = "good" -> e.data = GoodNested
       [] mode \in {"inst", "instopt"} /\ r.class = "good_inst" -> e.data.t = "inst" /\ e.data.addr = "addr1"
       [] OTHER -> TRUE
 EvTypes(n) == [i \in 1..n |-> "ev" \o ToString(i - 1)]
